@@ -472,3 +472,212 @@ def c05_numbering(obs, case=None):
             if s not in rec["emitted"] and ne.get(s, 0) != nxt - 1:
                 tags.append("num_events-differs-from-stream-datum-coverage")
     return sorted(set(tags))
+
+
+# ------------------------------------------------------------------------------------------------ deferred pause (C09)
+def _replayed_after(obs, n):
+    """Msg objects executed before index n that are executed again at or after n."""
+    old = {id(m) for m in obs.msgs[:n]}
+    return [m for m in obs.msgs[n:] if id(m) in old]
+
+
+def c09_deferred(obs, case=None):
+    tags = []
+    reqs = [r for r in obs.reqs if r["kind"] == "defer"]
+    if not reqs or obs.stuck:
+        return tags
+    r = reqs[0]
+    if r["out"][0] == "exc" or r["state"] != "running":
+        return tags
+    if any(q["kind"] not in ("defer", "update") for q in obs.reqs):
+        other = True  # a second request of another kind may legitimately end or pause the plan earlier
+    else:
+        other = False
+    first = obs.calls[0]
+    ncall0 = [i for i, (_, c) in enumerate(obs.msg_meta) if c == 0]
+    end0 = (ncall0[-1] + 1) if ncall0 else 0
+    # d: index of the first message pulled from the plan with the deferred request already registered
+    d = next((i for i in range(end0) if obs.msg_deferred[i]), None)
+    if d is None:
+        # the request was registered after the last message of the first call was pulled
+        if first["outcome"] == "ret" and not other:
+            if not first["deferred"]:
+                tags.append("pending-deferred-pause-not-reported-after-plan-completed")
+            if obs.followup is not None and obs.followup_deferred:
+                tags.append("deferred-pause-still-reported-after-the-next-plan-started")
+        return tags
+    cps = [i for i in range(max(d - 1, 0), end0) if obs.msgs[i].command == "checkpoint"]
+    if section_at(obs, (cps[0] + 1) if cps else end0) == "cleared":
+        return tags  # non-resumable plan: C10's business
+    if other:
+        return tags
+    real = [i for i in cps if i >= d]
+    if first["state"] == "paused":
+        at = first["nmsgs"] - 1
+        if obs.msgs[at].command != "checkpoint":
+            tags.append("deferred-pause-took-effect-at-a-message-that-is-not-a-checkpoint")
+        elif at not in cps[:1] + real[:1]:
+            tags.append("deferred-pause-skipped-the-next-checkpoint")
+        if any(c2["api"] == "resume" for c2 in obs.calls) and _replayed_after(obs, first["nmsgs"]):
+            tags.append("resume-after-deferred-pause-replayed-messages")
+    else:
+        if real:
+            tags.append("deferred-pause-did-not-pause-at-a-following-checkpoint")
+        elif first["outcome"] == "exc" and first["exc_type"] == "RunEngineInterrupted":
+            tags.append("deferred-pause-interrupted-a-plan-with-no-further-checkpoint")
+        elif first["outcome"] == "ret":
+            if not first["deferred"]:
+                tags.append("pending-deferred-pause-not-reported-after-plan-completed")
+            if obs.followup is not None and obs.followup_deferred:
+                tags.append("deferred-pause-still-reported-after-the-next-plan-started")
+    return sorted(set(tags))
+
+
+# ------------------------------------------------------------------------------------------------ non-resumable sections (C10)
+def c10_nonresumable(obs, case=None):
+    tags = []
+    if obs.stuck:
+        return ["engine-stuck"]
+    hits = [x for x in interruptions(obs) if x[3] == "cleared"]
+    if not hits:
+        return tags
+    kind, n, step, _, _ = hits[0]
+    call = obs.calls[0]
+    for c in obs.calls:
+        if c["steps"] >= step:
+            call = c
+            break
+    if call["state"] == "paused":
+        tags.append("paused-inside-a-non-resumable-section")
+        return tags
+    if obs.state != "idle":
+        tags.append(f"final-state-{obs.state}-after-interrupting-a-non-resumable-section")
+    if call["exc_type"] != "RunEngineInterrupted":
+        tags.append(f"interruption-of-non-resumable-section-raised-{call['exc_type']}-instead-of-RunEngineInterrupted:{kind}")
+    if _replayed_after(obs, n):
+        tags.append("messages-replayed-after-interrupting-a-non-resumable-section")
+    cleanup = [m for m in obs.msgs if m.command == "null" and m.args and str(m.args[0]).startswith("cleanup")]
+    wants_cleanup = case is not None and case.get("plan") in ("cleanup", "two_runs_cleared")
+    if wants_cleanup and not cleanup:
+        tags.append("cleanup-did-not-run-after-interrupting-a-non-resumable-section")
+    runs, _ = group_runs(obs.docs)
+    if obs.state == "idle" and any("stop" not in [nm for _, nm, _ in items] for items in runs.values()):
+        tags.append("run-left-open-after-interrupting-a-non-resumable-section")
+    return sorted(set(tags))
+
+
+# ------------------------------------------------------------------------------------------------ suspension (C11)
+def c11_suspension(obs, case=None, pre="pre", post="post"):
+    tags = []
+    if obs.stuck:
+        return ["engine-stuck"]
+    msgs = obs.msgs
+    starts = [i for i, m in enumerate(msgs) if m.command == "_start_suspender"]
+    HELP = {"rewindable", "wait_for", "_start_suspender", "_resume_from_suspender"}
+    for s in starts:
+        # the matching resume: first _resume_from_suspender after s that is not claimed by a nested start
+        depth, r = 0, None
+        for j in range(s + 1, len(msgs)):
+            if msgs[j].command == "_start_suspender":
+                depth += 1
+            elif msgs[j].command == "_resume_from_suspender":
+                if depth == 0:
+                    r = j
+                    break
+                depth -= 1
+        if r is None:
+            continue  # terminated while suspended
+        for m in msgs[s + 1: r]:
+            if m.command in HELP:
+                continue
+            if m.command == "null" and m.args and m.args[0] in (pre, post):
+                continue
+            tags.append("plan-message-executed-while-suspended")
+        t_s, t_r = obs.msg_times[s], obs.msg_times[r]
+        rel = [q for q in obs.reqs if q["kind"] == "suspend"]
+        if rel and t_r + 1e-9 < min(q["t"] for q in rel) + 1.0:
+            paused_meanwhile = any(new == "pausing" and s < meta[0] <= r + 1 for (old, new), meta in zip(obs.trans, obs.trans_meta))
+            tags.append("plan-resumed-before-the-suspension-was-released" + (":after-pause-and-resume-during-the-suspension" if paused_meanwhile else ""))
+        if pre is not None and case and case.get("prepost"):
+            if not any(m.command == "null" and m.args and m.args[0] == pre for m in msgs[s + 1: r]):
+                tags.append("pre-plan-did-not-run-before-waiting")
+            after = msgs[r + 1: r + 4]
+            if not any(m.command == "null" and m.args and m.args[0] == post for m in after):
+                tags.append("post-plan-did-not-run-right-after-release")
+        # every device moved before the suspension is told to stop while suspended
+        moved = {d for (j, d, op, a), lm in zip(obs.ledger, obs.ledger_msg) if op == "set" and lm is not None and any(lm is x for x in msgs[:s])}
+        stopped = {d for (j, d, op, a), lm in zip(obs.ledger, obs.ledger_msg) if op == "stop" and lm is msgs[s]}
+        if moved - stopped:
+            tags.append("moved-device-not-stopped-at-suspension")
+    first = obs.calls[0]
+    if starts and first["outcome"] == "exc" and first["exc_type"] == "RunEngineInterrupted" and first["state"] == "paused" and not any(q["kind"] in ("pause", "defer") for q in obs.reqs):
+        tags.append("suspension-returned-control-to-the-caller")
+    for c in obs.calls:
+        if c["api"] in ("call", "resume") and c["outcome"] == "exc" and c["exc_type"] != "RunEngineInterrupted":
+            if c["exc_type"] == "TransitionError" and c["state"] == "suspending":
+                tags.append("!engine-left-in-suspending-by-late-suspension")
+            else:
+                tags.append(f"{c['api']}-raised-{c['exc_type']}")
+    return sorted(set(tags))
+
+
+# ------------------------------------------------------------------------------------------------ device errors (C12)
+def c12_errors(obs, case=None):
+    tags = []
+    lab = obs.lab
+    if lab.fault_at is None or obs.stuck:
+        return tags
+    fm = lab.fault_msg
+    thrown = [(m, e, n) for m, e, n in obs.thrown if type(e).__name__ in ("DeviceError", "DeviceAttrError", "FailedStatus")]
+    last = obs.calls[-1]
+    if lab.fail_call is not None:
+        if fm is None:
+            return tags  # the failing call was made by the engine's own cleanup, not on behalf of a message
+        op = next((o for j, d, o, a in obs.ledger if j == lab.fail_call), None)
+        if op in ("stop", "clear_sub", "unstage") and fm.command not in ("stop", "unstage", "unmonitor"):
+            return tags  # made by the engine while pausing/suspending/cleaning up during that message: logged and swallowed by design
+        first_exec = next((i for i, m in enumerate(obs.msgs) if m is fm), None)
+        if first_exec is not None and first_exec < lab.fault_at[1] - 1:
+            return tags  # the failure happened while the message was being *replayed* after a rewind: the plan is not at that yield
+        plan_msgs = {id(m) for m, _, _ in obs.thrown} | {id(m) for m in obs.msgs}
+        if not thrown:
+            if any(fm is m for m in obs.msgs):
+                tags.append("device-exception-never-reached-the-plan")
+        else:
+            m, e, n = thrown[0]
+            if m is not fm and not (m.command == fm.command and m.obj is fm.obj):
+                tags.append("device-exception-thrown-at-a-different-message")
+            if last["api"] in ("call", "resume") and last["outcome"] == "exc" and last["exc_type"] not in ("DeviceError", "DeviceAttrError", "RunEngineInterrupted", "IllegalMessageSequence"):
+                tags.append(f"unhandled-device-exception-surfaced-as-{last['exc_type']}")
+        if thrown and last["outcome"] == "ret" and obs.state == "idle" and (obs.plan_end or [None])[0] == "raised":
+            tags.append("call-returned-normally-although-the-plan-died-of-a-device-error")
+    else:
+        if fm is None:
+            return tags
+        idx = next((i for i, m in enumerate(obs.msgs) if m is fm), None)
+        if idx is None:
+            return tags
+        if idx < lab.fault_at[1] - 1:
+            return tags  # status created while replaying
+        grp = fm.kwargs.get("group")
+        waits = [i for i, m in enumerate(obs.msgs) if i > idx and m.command == "wait" and (m.kwargs.get("group") == grp or (m.args and m.args[0] == grp))]
+        if not thrown:
+            if waits and obs.state == "idle" and last["outcome"] == "ret":
+                tags.append("failed-status-never-reached-the-plan")
+        else:
+            m, e, n = thrown[0]
+            if type(e).__name__ != "FailedStatus":
+                tags.append(f"failed-status-surfaced-as-{type(e).__name__}")
+            elif type(e.__cause__).__name__ not in ("DeviceError",):
+                tags.append("FailedStatus-not-chained-to-the-device-exception")
+            # position of the yield at which it was thrown: the message object m, first executed at...
+            mi = max((i for i, x in enumerate(obs.msgs[:n]) if x is m), default=None)
+            if waits and mi is not None:
+                w = waits[0]
+                # replays re-execute the wait: use the last execution of the first matching wait object before the throw
+                w_obj = obs.msgs[w]
+                w_last = max((i for i, x in enumerate(obs.msgs[:n]) if x is w_obj), default=w)
+                if mi > w_last:
+                    later_cp = [i for i, x in enumerate(obs.msgs[:n]) if x.command == "checkpoint" and i > w_last]
+                    tags.append("failed-status-reached-the-plan-after-the-wait-on-its-group" + ("-and-a-later-checkpoint" if later_cp else ""))
+    return sorted(set(tags))
